@@ -167,4 +167,23 @@ Section Pair.
 
   Theorem dom_laws : LatLaws (dom_ops LA LB).
   Proof. exact (ord_laws dom_ord). Qed.
+
+  Lemma dom_toplaw : TopLaw LA -> TopLaw LB -> TopLaw (dom_ops LA LB).
+  Proof.
+    intros TLA TLB [a b] Wx. assert (Wx' := Wx). unf. wsplit. rewrite andb_true_iff. split.
+    - intros [T1 T2] [a' b'] Wy. apply (o_Le_iff dom_ord); [exact Wy|exact Wx'|].
+      unf. wsplit. unfold dom_le, klt, keq. cbn [fst snd].
+      assert (L : Le LA a' a) by (apply (proj1 (TLA a Wa) T1); assumption).
+      destruct (Le_dec a a') as [L'|N]; [right|left; tauto].
+      repeat split; try assumption. apply (proj1 (TLB b Wb) T2); assumption.
+    - intros Hl. destruct (inh HB) as [b0 Wb0]. split.
+      + apply (TLA a Wa). intros a' Wa'.
+        pose proof (pair_wf_intro _ _ Wa' Wb0) as Wy.
+        specialize (Hl (a', b0) Wy). apply (o_Le_iff dom_ord) in Hl; [|exact Wy|exact Wx'].
+        destruct Hl as [[L _]|[[L _] _]]; exact L.
+      + apply (TLB b Wb). intros b' Wb'.
+        pose proof (pair_wf_intro _ _ Wa Wb') as Wy.
+        specialize (Hl (a, b') Wy). apply (o_Le_iff dom_ord) in Hl; [|exact Wy|exact Wx'].
+        destruct Hl as [[L N]|[_ Vv]]; [|exact Vv]. exfalso. apply N. apply le_refl; assumption.
+  Qed.
 End Pair.
